@@ -200,6 +200,13 @@ pub(crate) fn credit_send_pair(initial_credits: u32) -> (CreditProvider, CreditU
 /// Represents monitored used credits.
 pub(crate) struct UsedCredit(u32);
 
+impl UsedCredit {
+    /// No credits, i.e. the credits have already been returned.
+    pub fn none() -> Self {
+        Self(0)
+    }
+}
+
 #[derive(Debug)]
 struct ChannelCreditMonitorInner {
     used: u32,
